@@ -117,11 +117,13 @@ Proof. exact derive_port_direction_spec. Qed.
 
 (* ------------------------------------------------------------------ command-line acceptance versus the builder *)
 (* A configuration accepted by the command-line layer (values in the ranges of their Rust types) satisfies
-   every builder check except possibly `initial_sequence <= 64511`, which the command-line layer does not make:
-   the builder then answers with Error::BadConfig before tracing starts. *)
+   every builder check except possibly the two on the initial sequence (`initial_sequence <= 64511`, and non-zero for
+   Paris over IPv6), which the command-line layer does not make: the builder then answers with Error::BadConfig
+   before tracing starts. *)
 Theorem c16_cli_accepts_implies_builder_accepts : forall tz a f p pid c tgt tid,
   build_config tz a f p pid = COk c -> args_in_range a -> file_in_range f -> u16 pid -> u16 tid ->
-  builder_accepts (start_tracer_cfg c tgt tid) = (tc_initial_sequence c <=? MAX_INITIAL_SEQUENCE) /\
+  builder_accepts (start_tracer_cfg c tgt tid) =
+    (tc_initial_sequence c <=? MAX_INITIAL_SEQUENCE) && negb (paris6_zero (start_tracer_cfg c tgt tid)) /\
   cfg_wf (start_tracer_cfg c tgt tid).
 Proof. exact cli_accept_builder. Qed.
 
@@ -138,7 +140,7 @@ Proof. intros c t0 is HA. apply run_from_inv; [assumption|apply inv_new; assumpt
 (* command line + builder *)
 Theorem c16_cli_runs : forall tz a f p pid c tgt tid t0 is,
   build_config tz a f p pid = COk c -> args_in_range a -> file_in_range f -> u16 pid -> u16 tid ->
-  tc_initial_sequence c <= MAX_INITIAL_SEQUENCE ->
+  tc_initial_sequence c <= MAX_INITIAL_SEQUENCE -> paris6_zero (start_tracer_cfg c tgt tid) = false ->
   let '(ev, o, sf) := run (start_tracer_cfg c tgt tid) t0 is in forall x, o <> Faulted x.
 Proof. exact cli_runs. Qed.
 
